@@ -60,7 +60,9 @@ def values_for(tier):
             {'__obj__': 'Auto1', 'kwargs': {'a': [1, 'y']}}, {'__obj__': 'Auto2', 'kwargs': {'a': 1}}, {'__obj__': 'Auto2', 'kwargs': {'a': 1, 'c': 5}},
             {'__obj__': 'Auto2', 'kwargs': {'a': 1, 'c': 6}}, {'__obj__': 'Hand1', 'args': ['h']}, {'__obj__': 'Plain1', 'args': [1, 'b']},
             {'__obj__': 'Plain1', 'kwargs': {'a': [1, {'k': 'v'}]}}, [{'__obj__': 'Hand1', 'args': [1]}, 2],
-            {'__obj__': 'AutoBoth', 'kwargs': {'cols': ['z', 'a', 'm']}}, {'__obj__': 'AutoBoth', 'args': [[3, 1, 2]]}]
+            {'__obj__': 'AutoBoth', 'kwargs': {'cols': ['z', 'a', 'm']}}, {'__obj__': 'AutoBoth', 'args': [[3, 1, 2]]},
+            {'__obj__': 'AutoTuple', 'kwargs': {'a': 1}}, {'__obj__': 'AutoTuple', 'kwargs': {'a': 1, 'size': [224, 224]}}, [{'__obj__': 'AutoTuple', 'args': [2]}],
+            {'__obj__': 'AutoRaw', 'kwargs': {'path': '{DIR}/vocab'}}]
     return vals, objs
 
 
@@ -316,6 +318,19 @@ def run(tier, seed):
                     raise HarnessError(f'reference model drifted from golden vectors: {wname}/{vid}/{mode}: {bad}')
     if ng < 200:
         raise HarnessError(f'only {ng} golden vectors matched the family')
+    # module-derived groups across two modules (a task class subclassing a task class of another module), every declaration / first-touch order
+    import tcv
+    from tcv import modgroups, scratch
+
+    tcv.quiet_library()
+    mroot = scratch.fresh('c12mg')
+    nmg, bad = modgroups.check(mroot)
+    scratch.drop(mroot)
+    res.add('evaluations', nmg)
+    res.add('transitions', nmg)
+    res.add('states', nmg)
+    for sig, what, case in bad:
+        res.violations.append(Violation(f'module groups: {sig}', what, case))
     res.coverage['golden_vectors_validated'] = ng
     res.coverage['distinct_nontrivial'] = len({p for w in refs.values() for v in w.values() for p in v['param'].values() if p})
     res.coverage['traces_validated_against_impl'] = res.coverage['evaluations']
@@ -333,6 +348,10 @@ def replay(case):
     import tcv
 
     tcv.quiet_library()
+    if case.get('kind') == 'module-groups':
+        from tcv import modgroups, scratch
+        n, bad = modgroups.check(scratch.fresh('c12mg'))
+        return [Violation(f'module groups: {sig}', what, c) for sig, what, c in bad if c['order'] == case['order'] and c['touch'] == case['touch']]
     r, ref, modname = _shard((case['desc'], [case['vid']]))
     return r.violations
 
